@@ -85,6 +85,12 @@ class NP:
       return [(p, base)]
     if isinstance(base, VRef):
       return [(p, VBoundExt(base, attr))]
+    from .libspec_shape import VExtObj
+    if isinstance(base, VExtObj):
+      h = self.lib.extobj_attrs.get((base.kind, attr))
+      if h is not None:
+        return [(p, h(cx, base))]
+      return [(p, VBoundExt(base, attr))]
     if isinstance(base, VSuper):
       mro = cx.ex.prog.classes[base.obj.cls].mro
       after = mro[mro.index(base.cls) + 1:]
@@ -616,6 +622,8 @@ def install(lib):
   def _callable(cx, v):
     if isinstance(v, (VFunc, VExt, VClass)):
       return VBool(True)
+    if isinstance(v, VRef) and v.types is not None:
+      return VBool('callable' in v.types)
     if isinstance(v, VRef):
       return VBool(z3.Function('is_callable', Ref, z3.BoolSort())(v.t))
     if isinstance(v, VObj):
@@ -914,6 +922,8 @@ def install(lib):
 
   from . import libspec_more
   libspec_more.install(lib, np_)
+  from . import libspec_shape
+  libspec_shape.install(lib, np_)
 
 
 class VSuper(V):
